@@ -24,7 +24,7 @@ TIER="${2:-quick}"
 case "$TARGET" in
   der_decoders) RUNS=70000;  MAXLEN=16384; PROPS="C04" ;;
   xml_parsers)  RUNS=150000; MAXLEN=8192;  PROPS="C09 C11" ;;
-  rtr_stream)   RUNS=1200000; MAXLEN=4096;  PROPS="C07" ;;
+  rtr_stream)   RUNS=800000; MAXLEN=4096;  PROPS="C07" ;;
   *) echo "usage: $0 der_decoders|xml_parsers|rtr_stream quick|thorough" >&2; exit 2 ;;
 esac
 RUNS="${VERIF_FUZZ_RUNS:-$RUNS}"
